@@ -513,6 +513,76 @@ def projection (sch : Schema) (d : Dialect) (e : Expr) : Except TrErr Sql :=
   | .ok m => .ok m.getsql
   | .error x => .error x
 
+/-! ## the fragment covered by the theorems (decidable; printed in the evidence) -/
+
+/-- expressions that denote a value (their monad is a Numeric*/String* monad), as opposed to conditions -/
+def valueSorted : Expr → Bool
+  | .attr _ => true | .cInt _ => true | .cStr _ => true | .cBool _ => true | .param _ => true
+  | .bin _ _ _ => true | .neg _ => true | .abs _ => true | .len _ => true | .ite _ _ _ => true
+  | _ => false
+
+/-- syntactically never missing -/
+def nn (sch : Schema) : Expr → Bool
+  | .attr n => match sch.attr n with
+    | some (_, nl) => !nl
+    | none => false
+  | .cInt _ => true | .cStr _ => true | .cBool _ => true | .param _ => true
+  | .bin _ l r => nn sch l && nn sch r
+  | .neg x => nn sch x | .abs x => nn sch x | .len x => nn sch x
+  | .ite _ t e => nn sch t && nn sch e
+  | _ => false
+
+/-- conditions whose SQL is unknown exactly when the Python reading is unknown (no truth test of a possibly missing value inside) -/
+def exact (sch : Schema) : Expr → Bool
+  | .cmp _ _ _ => true | .inList _ _ _ => true | .like _ _ _ _ => true
+  | .and l r => exact sch l && exact sch r
+  | .or l r => exact sch l && exact sch r
+  | .not _ => true
+  | e => nn sch e
+
+def MTy.isNum : MTy → Bool
+  | .int => true | .bool => true | _ => false
+
+def sameClass (a b : MTy) : Bool := (a == .str && b == .str) || (a.isNum && b.isNum)
+
+def trTy (sch : Schema) (d : Dialect) (e : Expr) : MTy :=
+  match tr sch d e with
+  | .ok m => m.ty
+  | .error _ => .none
+
+/-- a constant LIKE pattern for which the backend's matcher is known to agree with Python (C06_like_const; PostgreSQL / MySQL
+    treat a backslash as escape character when no ESCAPE clause is emitted) -/
+def okPat (d : Dialect) (pat : String) : Bool := d == .sqlite || !pat.toList.contains '\\'
+
+def isOrd : POp → Bool
+  | .lt => true | .le => true | .gt => true | .ge => true | _ => false
+
+def isIs : POp → Bool
+  | .is_ => true | .isNot => true | _ => false
+
+/-- THE HYPOTHESIS SET of `C01_cond`.  Outside it (differential only): a condition used as a value (`e.b == (e.a > 1)`, `(x > 1) + 1`),
+    `not` over an `and`/`or` that truth-tests a possibly missing value, `pat not in s` for a possibly missing `s`, `is`/`is not`
+    between two values, comparisons between a number and a string, `None` anywhere but as the operand of `== != is is-not`,
+    mixed-type conditional expressions; and everything that is not in `Expr` at all. -/
+def frag (sch : Schema) (d : Dialect) : Expr → Bool
+  | .attr _ => true | .cInt _ => true | .cStr _ => true | .cBool _ => true | .param _ => true
+  | .cNone => false
+  | .cmp op l r =>
+      if isNoneLit r then !isOrd op && valueSorted l && frag sch d l
+      else if isNoneLit l then !isOrd op && valueSorted r && frag sch d r
+      else !isIs op && valueSorted l && valueSorted r && frag sch d l && frag sch d r && sameClass (trTy sch d l) (trTy sch d r)
+  | .inList _ x items =>
+      valueSorted x && frag sch d x && items.all (fun it => sameClass (trTy sch d x) (litTy it))
+  | .like _ ng pat x => valueSorted x && frag sch d x && (!ng || nn sch x) && okPat d pat
+  | .and l r => frag sch d l && frag sch d r
+  | .or l r => frag sch d l && frag sch d r
+  | .not x => frag sch d x && (valueSorted x || exact sch x)
+  | .bin _ l r => valueSorted l && valueSorted r && frag sch d l && frag sch d r
+  | .neg x => valueSorted x && frag sch d x
+  | .abs x => valueSorted x && frag sch d x
+  | .len x => valueSorted x && frag sch d x
+  | .ite c t e => frag sch d c && frag sch d t && frag sch d e && valueSorted t && valueSorted e && trTy sch d t == trTy sch d e
+
 /-! ## the row as the backend stores it -/
 
 def encS (d : Dialect) : Scalar → Val
